@@ -57,9 +57,12 @@ func stopLive() {
 	}
 }
 
-func startLive(c deployCfg, withCache bool, rateLimit int) {
+func startLive(c deployCfg, withCache bool, rateLimit int, as112 bool) {
 	stopLive()
 	hs := []string{"recovery", "edns"}
+	if as112 {
+		hs = append(hs, "as112")
+	}
 	if rateLimit > 0 {
 		hs = append(hs, "ratelimit")
 	}
@@ -256,11 +259,16 @@ func execSrv(f []string) vlib.Res {
 	switch f[1] {
 	case "new":
 		c := parseDeploy(f[2:6])
-		rl := 0
-		if len(f) > 7 {
-			rl = vlib.Atoi(strings.TrimPrefix(f[7], "rl="))
+		rl, as112 := 0, false
+		for _, t := range f[7:] {
+			switch {
+			case strings.HasPrefix(t, "rl="):
+				rl = vlib.Atoi(strings.TrimPrefix(t, "rl="))
+			case t == "as112":
+				as112 = true
+			}
 		}
-		startLive(c, f[6] == "t", rl)
+		startLive(c, f[6] == "t", rl, as112)
 		return vlib.Res{Impl: "ok"}
 	case "stop":
 		stopLive()
